@@ -379,8 +379,10 @@ def main(tier):
                 bad = None
                 if o.size != size:
                     bad = "width %d -> %d" % (size, o.size)
-                elif "?" not in vals and now != vals:
-                    bad = "value " + ", ".join("%s->%s" % (hex(a) if isinstance(a, int) else a, hex(b) if isinstance(b, int) else b) for a, b in zip(vals, now) if a != b)[:160]
+                elif "?" not in vals and any(isinstance(b, int) and a != b for a, b in zip(vals, now)):
+                    # (a position the walker can no longer evaluate — the object was re-shaped into a form
+                    #  outside the walker's fragment, e.g. a vec condition — is undecided, not a change)
+                    bad = "value " + ", ".join("%s->%s" % (hex(a) if isinstance(a, int) else a, hex(b) if isinstance(b, int) else b) for a, b in zip(vals, now) if a != b and isinstance(b, int))[:160]
                 if bad:
                     opk = name.split("0")[0]
                     ck.report("C13:%s:%s:%s" % (name, kind(o), bad.split(" ")[0]),
